@@ -83,6 +83,11 @@ theorem findIdx?_of_getElem? {α} (p : α → Bool) : ∀ (l : List α) (k : Nat
 theorem getD_of_getElem? (ks : List KeyRec) (j : Nat) (kr d : KeyRec) (h : ks[j]? = some kr) : ks.getD j d = kr := by
   simp [List.getD, h]
 
+/-- for a compressed key the SegWit entry of the table is what make_wallet computes (a key that is not compressed has none) -/
+theorem mkKey_seg_of_33 (H : Addr.Hashes) (b : Bool) (p : Bytes) (h : p.length = 33) :
+    (mkKey H b p).segH160 = if b then zero20 else H.hash160 ([0, 20] ++ H.hash160 p) := by
+  simp [mkKey, h]
+
 theorem keyTable_getElem? (H : Addr.Hashes) (b : Bool) (pubs : List Bytes) (k : Nat) (kr : KeyRec)
     (h : (keyTable H b pubs)[k]? = some kr) : ∃ p, pubs[k]? = some p ∧ kr = mkKey H b p := by
   unfold keyTable at h
@@ -308,11 +313,12 @@ theorem verify_aux (H : Addr.Hashes) (C : Crypto) (S : Signer) (c : Cfg) (pubs :
       (c.bech32 = false → kr.segH160 = H.hash160 ([0, 20] ++ kr.h160)) := by
     intro k kr hk
     obtain ⟨p, hp, rfl⟩ := keyTable_getElem? H c.bech32 pubs k kr hk
-    refine ⟨pub_len p (List.mem_of_getElem? hp), rfl, hash_len _, ?_, ?_⟩
-    · simp only [mkKey]; split
+    have hp33 : p.length = 33 := pub_len p (List.mem_of_getElem? hp)
+    refine ⟨hp33, rfl, hash_len _, ?_, ?_⟩
+    · rw [mkKey_seg_of_33 H _ p hp33]; split
       · simp [zero20]
       · exact hash_len _
-    · intro hb; simp [mkKey, hb]
+    · intro hb; rw [mkKey_seg_of_33 H _ p hp33]; simp [mkKey, hb]
   unfold verifyInput
   rw [h1, hsp]
   simp only [h2, h3]
@@ -406,8 +412,9 @@ theorem outScript_fromPkScript_own (H : Addr.Hashes) (c : Cfg) (pubs : List Byte
       kr.pub.length = 33 ∧ kr.h160.length = 20 ∧ kr.segH160.length = 20 := by
     intro k kr hk
     obtain ⟨p, hp, rfl⟩ := keyTable_getElem? H c.bech32 pubs k kr hk
-    refine ⟨pub_len p (List.mem_of_getElem? hp), hash_len _, ?_⟩
-    simp only [mkKey]; split
+    have hp33 : p.length = 33 := pub_len p (List.mem_of_getElem? hp)
+    refine ⟨hp33, hash_len _, ?_⟩
+    rw [mkKey_seg_of_33 H _ p hp33]; split
     · simp [zero20]
     · exact hash_len _
   cases ho with
